@@ -1,13 +1,13 @@
 (** Properties_C05.v — property C05: printed text is strict JSON and all print variants agree.
     Only statements closed by [exact]; proofs live in PrintStrict.v, PrintStrictWs.v,
-    PrintStrictRef.v (this property) and PrintProofs.v (the buffer-level refinement, printer).
+    PrintStrictInt.v, PrintStrictVariants.v, PrintStrictRef.v (this property) and PrintProofs.v (the buffer-level refinement, printer).
 
     The C library conversions called by print_number (sprintf %d / %1.15g / %1.17g, sscanf %lg)
     are external code: every theorem is stated for EVERY libc satisfying the contract record
     [LibcStrictSpec] (7 named clauses: the three conversions produce RFC 8259 number tokens that
     fit print_number's 26-byte scratch buffer; %d prints an optional minus and digits only).
     [render] is the text the buffer-level printer is proved to produce (C05_variants below). *)
-From CJ Require Import Base Dbl Tree Grammar PrintDefs PrintLemmas LibcPrint PrintStrict PrintStrictWs PrintStrictRef PrintStrictVariants.
+From CJ Require Import Base Dbl Tree Grammar PrintDefs PrintLemmas LibcPrint PrintStrict PrintStrictWs PrintStrictInt PrintStrictRef PrintStrictVariants.
 Local Open Scope Z_scope.
 
 (** ------------------------------------------------------------------ 1. strict JSON *)
@@ -75,16 +75,16 @@ Print Assumptions C05_strip_literal.
 
 (** ------------------------------------------------------------------ 3. integers print plainly *)
 
-(** a finite Number whose double equals (double)valueint, valueint a C int, prints as "%d" of
-    valueint, which matches -?[0-9]+ (no fraction, no exponent) *)
+(** a Number whose double compares equal to (double)valueint, valueint a C int, prints as "%d" of
+    valueint, which matches -?[0-9]+ (no fraction, no exponent).  (No finiteness hypothesis:
+    (double)z is proved finite for every int z, so == excludes NaN and the infinities.) *)
 Theorem C05_int_plain :
   forall fmt_d fmt_g15 fmt_g17 sscanf_lg, LibcStrictSpec fmt_d fmt_g15 fmt_g17 ->
   forall ty vs vi vd key ch fmt depth,
-  tymask ty = c_cJSON_Number -> is_nan vd || is_inf vd = false ->
-  deq vd (dbl_of_int vi) = true -> int_range vi = true ->
+  tymask ty = c_cJSON_Number -> deq vd (dbl_of_int vi) = true -> int_range vi = true ->
   render fmt_d fmt_g15 fmt_g17 sscanf_lg fmt depth (Node ty vs vi vd key ch) = Some (fmt_d vi)
   /\ plain_int_b (fmt_d vi) = true.
-Proof. exact int_plain. Qed.
+Proof. exact int_plain_full. Qed.
 Print Assumptions C05_int_plain.
 
 (** ------------------------------------------------------------------ 4. the print variants agree *)
@@ -148,9 +148,11 @@ Proof. exact ref_table_texts_test. Qed.
 
 (** ------------------------------------------------------------------ 6. non-vacuity *)
 
-(** the contract is satisfiable (reference "%d", toy "%g") ... *)
-Theorem C05_contract_satisfiable : exists fd g15 g17, LibcStrictSpec fd g15 g17.
-Proof. exact (ex_intro _ _ (ex_intro _ _ (ex_intro _ _ strict_spec_satisfiable))). Qed.
+(** the contract has an inhabitant: the reference "%d" (proved for all ints) and the reference "%g"
+    behind a run-time guard (an output that is not an RFC number of at most 25 bytes is replaced by
+    "0"; the guard is the identity on the whole table, [sguard_identity_test]) ... *)
+Theorem C05_contract_satisfiable : LibcStrictSpec fmt_d sg_fmt_g15 sg_fmt_g17.
+Proof. exact strict_spec_satisfiable. Qed.
 Print Assumptions C05_contract_satisfiable.
 
 (** ... and so is [printable], by a tree with nested containers, every escape class, bytes >= 0x80,
@@ -165,3 +167,11 @@ Proof.
         (conj (proj1 ex_tree_renders) (conj (proj2 ex_tree_renders) ex_tree_strip))))).
 Qed.
 Print Assumptions C05_nonvacuous.
+
+(** the conclusion of C05_strict on that tree, through the theorem (not by evaluation of a
+    recogniser): both printed texts are RFC 8259 JSON texts denoting its value *)
+Theorem C05_nonvacuous_strict :
+  RFC_text ex_text_unformatted (val_of fmt_d sg_fmt_g15 sg_fmt_g17 sscanf_lg ex_tree) /\
+  RFC_text ex_text_formatted (val_of fmt_d sg_fmt_g15 sg_fmt_g17 sscanf_lg ex_tree).
+Proof. exact ex_tree_texts_rfc. Qed.
+Print Assumptions C05_nonvacuous_strict.
